@@ -285,7 +285,10 @@ def monitor(case, line, ipc):
                     missing = written - delivered
                     if buf != "-":
                         return (None, "UV_EOF with %d bytes undelivered (read returned 0?)" % missing)
-                    injected = (not hup_honest) or last_k is None or last_k["capped"]
+                    if last_k is None or not last_k["short"]:
+                        return (None, "UV_EOF reported with %d bytes undelivered and without a short read "
+                                      "before it" % missing)
+                    injected = (not hup_honest) or last_k["capped"]
                     if not injected:
                         if any(lo < last_k["end"] <= hi for lo, hi in fd_msgs):
                             known = (KNOWN_IPC if ipc else KNOWN_NONIPC,
@@ -509,7 +512,7 @@ def main():
     cpath = os.path.join(vf.VERIF, "corpus", "C06", "cases.txt")
     corpus = [l.rstrip("\n") for l in open(cpath) if l.strip() and not l.startswith("#")] \
         if os.path.exists(cpath) else []
-    n = 60000 if thorough else 6000
+    n = 200000 if thorough else 6000
     gen = [gen_case(chk.rng) for _ in range(n)]
     cases = FIXED + corpus + gen
     a = run_mode(chk, N_UNIX, [hs, "unix"], model, cases)
@@ -522,7 +525,7 @@ def main():
         chk.cov["syscall_answers_logged"] = sum(len(l.split(";")[1].split()) for l in a if l.count(";") == 1)
         chk.cov["poll_masks_seen"] = sorted({e for t in tr for e in t if e[0] == "P"})
         chk.cov["shape_counts"] = shape_counts(tr)
-    tgen = [gen_case(chk.rng, tcp=True) for _ in range(12000 if thorough else 1500)]
+    tgen = [gen_case(chk.rng, tcp=True) for _ in range(40000 if thorough else 1500)]
     tfixed = [c for c in FIXED + corpus if c.split(";")[0].strip() == "0" and " g" not in c and " u" not in c]
     run_mode(chk, N_TCP, [hs, "tcp"], model, tfixed + tgen, tcp=True)
 
